@@ -33,6 +33,9 @@ type target struct {
 	seeds func() [][]byte
 	small int // all byte strings up to this length (0 = none)
 	pumps []pump
+	// post is asked after every call that returned: a non-empty answer is a violation of the "never stalls" clause that the
+	// call itself has not exhibited yet (state left behind that makes a later call block)
+	post func() string
 	// structured families: every sequence up to a depth over an alphabet of grammar units (legal and illegal
 	// transitions alike); emit is called once per input, in a fixed order
 	families []family
@@ -110,6 +113,11 @@ func (e *engine) try(t *target, b []byte, note string) outcome {
 	c.Case(t.name, c07case{Target: t.name, Hex: fullHex(b), Note: note})
 	o := runOneWithSite(t, b)
 	c.Case("", nil)
+	if !o.panicked && !o.stalled && t.post != nil {
+		if m := t.post(); m != "" {
+			c.Violation("stall-latent/"+t.name, fmt.Sprintf("decoder %s: %s; input (%d bytes, %s): %s", t.name, m, len(b), note, hl.Hex(b)), c07case{Target: t.name, Hex: fullHex(b), Note: note})
+		}
+	}
 	if o.panicked {
 		site, feat := o.site, ""
 		if e.feature != "" && e.feature != "valid" && o.site != e.baseSite {
